@@ -21,6 +21,9 @@ LAST = datetime.date(9999, 12, 31).toordinal()
 STRIDES = [0, 2, 7, 28, 29, 30, 31, 59, 365, 366, 1461, 36524, 36525, 146097,
            10 ** 6]
 
+NEAR_SECONDS = [-30, -9, -8, -5, -2, -1, 0, 1, 2, 5, 8, 9, 30, 61, 3599,
+                43200, 86399]
+
 FORMS = {
     "int": "int(d)",
     "decimal": "decimal(d)",
@@ -262,6 +265,31 @@ def explore_seconds(chunk):
                             {"t": "sec", "ordinal": ordinal, "sec": sec,
                              "lang": True, "add": True}, str(dt),
                             core.show_raw(r), size=sec)
+            # differences between instants: k days and a few seconds apart
+            # ((d + n) - d == n to the second, also right next to whole days)
+            base = mkdate(ordinal)
+            for k in (0, 1, 2):
+                for sec in NEAR_SECONDS:
+                    if k == 0 and sec < 0:
+                        continue
+                    try:
+                        other = base + datetime.timedelta(days=k,
+                                                          seconds=sec)
+                    except OverflowError:
+                        continue          # beyond 9999-12-31
+                    r = f.ev("sub", d=V.ValueDate(other),
+                             n=V.ValueDate(base))
+                    agg.count("steps")
+                    want = k * 86400 + sec
+                    ok = r[0] == "value" and isinstance(
+                        r[1], (V.ValueInt, V.ValueDecimal)) and \
+                        abs(r[1].value * 86400 - want) < 0.5
+                    if not ok:
+                        agg.violation(
+                            {"law": "program:difference-to-the-second"},
+                            {"t": "diff", "ordinal": ordinal, "k": k,
+                             "sec": sec}, want / 86400,
+                            core.show_raw(r), size=abs(sec) + k)
             agg.cls(("seconds", ordinal))
             agg.count("cases")
     finally:
@@ -271,6 +299,14 @@ def explore_seconds(chunk):
 
 def replay(case, verbose=False):
     agg = core.Agg()
+    if case["t"] == "diff":
+        a = explore_seconds({"days": [case["ordinal"]], "seconds": [],
+                             "lang_every": 1})
+        hit = [v for k, (sz, v) in a.viol.items()
+               if v["case"].get("t") == "diff"]
+        if verbose:
+            print(hit)
+        return bool(hit)
     if case["t"] == "day":
         check_day(agg, case["ordinal"], True)
     elif case["t"] == "stride":
